@@ -10,7 +10,10 @@ def render(n, c):
         if (n + i) % 3 == 0:
             vs.append("        /// The number %d case.\n" % i + ("        /// Second line, with a comma, and a semicolon; too.\n" if (n + i) % 2 == 0 else ""))
         vs.append("        V%d%s,\n" % (i, (" = %d" % l["v"]) if l["has"] else ""))
-    return ("    pub enum E%d {\n%s    }\n    impl E%d {\n        pub fn rt(self) -> E%d { self }\n        pub fn opt(self) -> Option<E%d> { Some(self) }\n    }\n" % (n, "".join(vs), n, n, n))
+    # W<n>: the enum as a FIELD of a struct that Rust returns (bindings read the field out of the native mirror)
+    return ("    pub enum E%d {\n%s    }\n    impl E%d {\n        pub fn rt(self) -> E%d { self }\n        pub fn opt(self) -> Option<E%d> { Some(self) }\n"
+            "        pub fn wrap(self) -> W%d { W%d { x: 1, e: self } }\n    }\n    pub struct W%d {\n        pub x: u8,\n        pub e: E%d,\n    }\n"
+            % (n, "".join(vs), n, n, n, n, n, n, n))
 
 
 # `rt` hands its argument back (an enum returned by value); `opt` writes it into the receive buffer as Some(v), so that the binding
@@ -231,6 +234,16 @@ def run(rep, tier):
                 by_pos = re.search(r'\bentries\b|\bvalues\(\)|\bordinal\b', body)
                 if (tab and (by_pos or not by_table)) or (not tab and not c["contiguous"]):
                     bad("kotlin", "enum converted by position at a use site", {"method": mname, "body": body.strip()[:400]})
+            # ... and the same when the enum is a struct field read out of the native mirror
+            wk = [os.path.join(rr, x) for rr, _, fs in os.walk(outs["kotlin"]) for x in fs if x == "W%s.kt" % f[1:]]
+            if not wk:
+                bad("kotlin", "struct with an enum field not generated", {})
+            else:
+                wt = open(wk[0]).read()
+                fm = re.search(r'val e: %s = ([^\n]*)' % f, wt)
+                init = fm.group(1) if fm else ""
+                if ("%s.fromNative(nativeStruct.e)" % f) not in init or re.search(r'\bentries\b|\bvalues\(\)|\bordinal\b', init):
+                    bad("kotlin", "enum-typed struct field converted by position (or not by the enum's own fromNative)", {"initializer": init[:300]})
         if "nanobind" in outs:
             t = open(os.path.join(outs["nanobind"], "somelib_ext.cpp")).read()
             m = re.search(r'nb::enum_<%s::Value>\(e_class, "%s"\)(.*?)\.export_values' % (f, f), t, re.S)
